@@ -49,6 +49,10 @@ def idx(i: int, dup: bool) -> int:
 
 
 NULLS = [False]      # replay mode: every matched value is null (a value like any other)
+NAMED = [False]      # replay mode: the matches are the members of an object whose names need escaping in paths and pointers
+NAMES = ["C:\\temp\\new", "caf\\u00e9", "a/b", "~x", "it's", ""]                  # (backslash + t / n / u00e9 as plain characters)
+NAME_PATHS = ["$['C:\\\\temp\\\\new']", "$['caf\\\\u00e9']", "$['a/b']", "$['~x']", "$['it\\'s']", "$['']"]
+NAME_PTRS = ["/C:\\temp\\new", "/caf\\u00e9", "/a~1b", "/~0x", "/it's", "/"]
 
 
 def val(j: int) -> Any:
@@ -60,6 +64,9 @@ def forward(view: str, ids: List[int], dup: bool) -> List[Any]:
     out: List[Any] = []
     for i in ids:
         j = idx(i, dup)
+        if NAMED[0]:
+            out.append(val(j) if view == "values" else NAME_PATHS[j] if view == "locations" else (NAME_PATHS[j], val(j)) if view == "items" else NAME_PTRS[j])
+            continue
         out.append(val(j) if view == "values" else f"$[{j}]" if view == "locations" else (f"$[{j}]", val(j)) if view == "items" else f"/{j}")
     return out
 
@@ -70,6 +77,8 @@ def run_prefix(n: int, hist: List[Dict[str, Any]], k: int, salt: int, dup: bool 
 
     text = "$[" + ",".join(str(idx(i, True)) for i in range(1, n + 1)) + "]" if dup and n else "$[*]"
     qs: Dict[int, Any] = {1: jsonpath.query(text, [val(i) for i in range(n)])}
+    if NAMED[0]:
+        qs = {1: jsonpath.query("$.*", {NAMES[i]: val(i) for i in range(n)})}
     if dup and n >= 3 and k == 1:
         # an environment of another class, limited to index 0, is asked for the same text: it refuses it (its own limits, not
         # whatever another environment made of the text before)
@@ -114,15 +123,15 @@ def run_prefix(n: int, hist: List[Dict[str, Any]], k: int, salt: int, dup: bool 
             else:
                 if h["op"] == "view":
                     got = list(getattr(q, name)())
-                    if dup or NULLS[0]:
+                    if dup or NULLS[0] or NAMED[0]:
                         got = [str(x) if name == "pointers" else tuple(x) if name == "items" else x for x in got]
                         obs = {"k": "list", "ids": exp["ids"] if got == forward(name, exp["ids"], dup) else ["?", str(got)[:80]]}
                     else:
                         obs = {"k": "list", "ids": ids_of(name, got)}
-                elif dup or NULLS[0]:
+                elif dup or NULLS[0] or NAMED[0]:
                     m = getattr(q, name)()
                     obs = ({"k": "nothing", "ids": []} if m is None else
-                           {"k": "match", "ids": exp["ids"] if exp["ids"] and (m.obj, m.path) == (val(idx(exp["ids"][0], dup)), f"$[{idx(exp['ids'][0], dup)}]") else ["?", m.path]})
+                           {"k": "match", "ids": exp["ids"] if exp["ids"] and (m.obj, m.path) == (val(idx(exp["ids"][0], dup)), forward("locations", exp["ids"][:1], dup)[0]) else ["?", m.path]})
                 else:
                     m = getattr(q, name)()
                     obs = {"k": "nothing", "ids": []} if m is None else {"k": "match", "ids": [m.obj - 9]}
@@ -150,10 +159,14 @@ def replay(rec: Dict[str, Any]) -> List[Tuple[str, Dict[str, Any], str]]:
     # behaviour when the chain bound is larger; here the final state is compared after the full
     # chain and return values after each prefix.
     bad: List[str] = []
-    for dup, statement, nulls in ((False, False, False), (True, False, False), (False, True, False), (False, False, True)):
-        # distinct nodes; every node visited twice; statement style; every value null
+    for dup, statement, nulls, named in ((False, False, False, False), (True, False, False, False), (False, True, False, False), (False, False, True, False),
+                                          (False, False, False, True)):
+        # distinct nodes; every node visited twice; statement style; every value null; members with names that need escaping
+        if named and n > len(NAMES):
+            continue
         NULLS[0] = nulls
-        tagd = "revisited-nodes:" if dup else "statement-style:" if statement else "null-values:" if nulls else ""
+        NAMED[0] = named
+        tagd = "revisited-nodes:" if dup else "statement-style:" if statement else "null-values:" if nulls else "escaped-names:" if named else ""
         for k in range(1, len(hist) + 1):
             b, qs = run_prefix(n, hist, k, salt, dup, statement)
             if b:
@@ -167,13 +180,14 @@ def replay(rec: Dict[str, Any]) -> List[Tuple[str, Dict[str, Any], str]]:
                 if q not in qs:
                     bad.append(f"final:{tagd}query-{q}-missing")
                     continue
-                got = [m.path for m in qs[q]] if nulls else [m.obj for m in qs[q]] if dup else [m.obj - 9 for m in qs[q]]
-                if got != (forward("locations", rec["rem"][q - 1], False) if nulls else forward("values", rec["rem"][q - 1], True) if dup else rec["rem"][q - 1]):
+                got = [m.path for m in qs[q]] if nulls or named else [m.obj for m in qs[q]] if dup else [m.obj - 9 for m in qs[q]]
+                if got != (forward("locations", rec["rem"][q - 1], False) if nulls or named else forward("values", rec["rem"][q - 1], True) if dup else rec["rem"][q - 1]):
                     bad.append(f"final:{tagd}remaining-differs")
                     break
         if bad:
             break
     NULLS[0] = False
+    NAMED[0] = False
     if not bad:
         return []
     ops = ">".join(h["op"] + ("-" if h["c"] < 0 else "") for h in hist)
